@@ -36,6 +36,11 @@ def check_record_pids(rec, V: list, where: str = "") -> bool:
     if len(pid) and (np.any(np.diff(pid) <= 0) or np.any(pid < np.arange(len(pid)))):
         V.append(C.viol(f"{where}record at {rec.time}: pids not strictly increasing with pid[k] >= k: {pid[:20].tolist()}"))
         return False
+    stored = rec.vars.get("pid") if hasattr(rec, "vars") else None
+    if stored is not None and len(stored) == len(pid) and np.any(np.asarray(stored).astype(int) != pid):
+        # dense layout: the column index is the identifier; a pid variable stored in the row must say the same
+        V.append(C.viol(f"{where}record at {rec.time}: the values of particles {np.asarray(stored).astype(int)[:12].tolist()} are stored in the columns {pid[:12].tolist()} of the dense row"))
+        return False
     return True
 
 
